@@ -29,6 +29,11 @@ type termCase struct {
 	// BrokerSilent: the connect exchange is complete on the client's side and the broker has not
 	// answered the MQTT CONNECT yet.
 	BrokerSilent bool `json:"broker_silent,omitempty"`
+	// BrokerCloses: the broker closes the connection as soon as it has the MQTT DISCONNECT: two causes
+	// then meet (the client's DISCONNECT, the broker closing), and whether the gateway's answer to
+	// the client's DISCONNECT still gets out before the session is torn down is not fixed by C13 (the
+	// farewell DISCONNECT of the statement is not owed: the client disconnected itself).
+	BrokerCloses bool `json:"broker_closes,omitempty"`
 }
 
 func genTerm(t *rapid.T) termCase {
@@ -155,6 +160,14 @@ func genTerm(t *rapid.T) termCase {
 			c.LateDisconnect = true
 		}
 	case "disconnect":
+		if rapid.Bool().Draw(t, "broker_closes_on_disconnect") {
+			// a conforming broker closes the connection as soon as it has the MQTT DISCONNECT
+			a := sc.Auto
+			a.CloseOnDisconnect = true
+			add(gwgen.SetAuto(a))
+			c.CauseAt++
+			c.BrokerCloses = true
+		}
 		add(gwgen.SN(plainDisconnect(t)))
 	case "mqclose":
 		add(gwgen.MQClose())
@@ -187,7 +200,7 @@ func causeEvent(tr *gwsim.Trace, step int) (int, *gwsim.Event) {
 func TestC13(t *testing.T) {
 	vf.Check(t, vf.Prop[termCase]{
 		ID: "C13", Name: "clean-termination", Bubble: true, DeadlockIsViolation: true,
-		Rule: "a session prefix (fresh / mid connect exchange with the broker silent or WILL*/AUTH outstanding / active with 0-4 operations some left pending: unacknowledged client QoS 1 publish, unacknowledged broker QoS 1/2 publish, unacknowledged gateway REGISTER / asleep without and with a running sleep pinger (sleep durations with a zero low or high byte included) / asleep and announcing a new sleep duration / after a wake-up / reconnected after a wake-up) followed, after a drawn pause around the poll interval, by one termination cause: gateway shutdown, client plain DISCONNECT, broker closing the connection, undecodable datagram, the client's transport closed by the peer (EOF, as after a DTLS close_notify), illegal packet while disconnected, undecodable MQTT bytes, the broker's CONNACK arriving when the client has become unreachable (the CONNACK cannot be sent); for the causes which need no datagram the client is, in a fifth of the cases, unreachable by then (writes to it fail); in a quarter of the active prefixes the broker has stopped reading and a write to it is pending; after a third of the gateway shutdowns the client answers the farewell DISCONNECT with a plain DISCONNECT of its own 1-99 ms later. Non-trivial = cause other than a clean DISCONNECT of an idle active session, or pending exchanges/pinger at the cause; distinct by (prefix, cause, pending, script).",
+		Rule: "a session prefix (fresh / mid connect exchange with the broker silent or WILL*/AUTH outstanding / active with 0-4 operations some left pending: unacknowledged client QoS 1 publish, unacknowledged broker QoS 1/2 publish, unacknowledged gateway REGISTER / asleep without and with a running sleep pinger (sleep durations with a zero low or high byte included) / asleep and announcing a new sleep duration / after a wake-up / reconnected after a wake-up) followed, after a drawn pause around the poll interval, by one termination cause: gateway shutdown, client plain DISCONNECT (in half of the cases the broker closes the connection the moment it has the MQTT DISCONNECT), broker closing the connection, undecodable datagram, the client's transport closed by the peer (EOF, as after a DTLS close_notify), illegal packet while disconnected, undecodable MQTT bytes, the broker's CONNACK arriving when the client has become unreachable (the CONNACK cannot be sent); for the causes which need no datagram the client is, in a fifth of the cases, unreachable by then (writes to it fail); in a quarter of the active prefixes the broker has stopped reading and a write to it is pending; after a third of the gateway shutdowns the client answers the farewell DISCONNECT with a plain DISCONNECT of its own 1-99 ms later. Non-trivial = cause other than a clean DISCONNECT of an idle active session, or pending exchanges/pinger at the cause; distinct by (prefix, cause, pending, script).",
 		Assumptions: []string{"bound: run returns within 100 ms (poll interval) + 1 ms of the cause on the virtual clock; sends are instantaneous on the in-memory links",
 			"the DISCONNECT-count clause is asserted in model states on which specification and implementation cannot disagree (never connected, active, asleep before the first wake-up); after a wake-up only termination, close and the goroutine census are asserted",
 			"the 'broker unreachable' cause needs a real dial and is checked by the separate part dial-failure"},
@@ -285,6 +298,12 @@ func checkTermination(which string, c termCase, tr *gwsim.Trace, r *vf.Result) {
 		if c.Unreachable {
 			want = -1 // nothing can be delivered
 			r.Label("client-unreachable")
+		}
+		if c.BrokerCloses {
+			r.Label("broker-closes-on-disconnect")
+			if want == 1 && n <= 1 {
+				want = -1 // the answer may or may not get out; never more than one DISCONNECT
+			}
 		}
 		if want >= 0 && n != want && !undec {
 			r.Fail(fmt.Sprintf("disconnect-count/%s/%s/want=%d,got=%d", c.Prefix, c.Cause, want, n), "client received %d DISCONNECT(s) after %s in state %s, expected %d\n%s", n, c.Cause, c.Prefix, want, tr.Dump(30))
